@@ -17,8 +17,12 @@ EXTENDS NpVal
 LOCAL JTag(x) == x[1]
 AsQ(dt, v) == IF IsFlt(dt) THEN v ELSE <<v, 1>>
 \* numeric equality across dtypes; NaN matches NaN; wide (limb) integers compare as tuples
+\* negative zero <<0, -1>>: the specification produces it only by copying, never by arithmetic, so an expected +0 accepts
+\* either sign while an expected -0 demands -0
 NumEq(dtE, vE, dtO, vO) ==
-  IF IsFlt(dtE) = IsFlt(dtO) THEN vE = vO ELSE AsQ(dtE, vE) = AsQ(dtO, vO)
+  LET e == IF IsFlt(dtE) = IsFlt(dtO) THEN vE ELSE AsQ(dtE, vE)
+      o == IF IsFlt(dtE) = IsFlt(dtO) THEN vO ELSE AsQ(dtO, vO)
+  IN e = o \/ (e = <<0, 1>> /\ o = <<0, -1>>)
 SeqEq(dtE, qE, dtO, qO) == Len(qE) = Len(qO) /\ \A i \in DOMAIN qE : NumEq(dtE, qE[i], dtO, qO[i])
 RowsShapeEq(rE, rO) == Len(rE) = Len(rO) /\ \A r \in DOMAIN rE : Len(rE[r]) = Len(rO[r])
 RowsEq(dtE, rE, dtO, rO) == \A r \in DOMAIN rE : SeqEq(dtE, rE[r], dtO, rO[r])
